@@ -21,6 +21,8 @@ package tq
 
 // Every object handed to the retry channel failed with a retriable error and
 // has budget left; a deferred object carries the server's time.
+// C06: a failed transfer that is not retried is covered by a reported error
+// (whatever the error, a 422 included).
 // C06 / C14: every watcher is told once about every object chained under the
 // finished id - each with its own name and path (the delayed-smudge list of
 // filter-process is built from those names).
@@ -28,6 +30,7 @@ package tq
 //@   props C15 C06 C14
 //@   requires @inv q.wait != nil && !q.wait.abort && res.Transfer != nil && q.rc != nil
 //@   ensures @C06 old(has(q.transfers, res.Transfer.Oid)) ==> (q.wait.counter == old(q.wait.counter) - 1 && chsent(retries) == old(chsent(retries))) || (q.wait.counter == old(q.wait.counter) && chsent(retries) == old(chsent(retries)) + 1)
+//@   ensures @C06 old(has(q.transfers, res.Transfer.Oid)) && res.Error != nil && chsent(retries) == old(chsent(retries)) ==> chsent(q.errorc) == old(chsent(q.errorc)) + 1
 //@   at send c assert @C06 res.Error == nil
 //@   at send c assert mapval__ != nil && mapval__.Name == t.Name && mapval__.Path == t.Path && mapval__.Oid == t.Oid && mapval__.Size == t.Size
 //@   loop 2 iter chsent(c) == iter(chsent(c)) + 1
